@@ -28,9 +28,9 @@ LEVEL = 'model_checking'
 
 def _worlds(tier):
   if tier == 'quick':
-    ws = [W.WRec(reduced=True), W.WSchema(), W.WSum(), W.W2Way()]
+    ws = [W.WRec(reduced=True), W.WSchema(), W.WSum(), W.W2Way(), W.WSumSum()]
   else:
-    ws = [W.WRec(), W.WSchema(), W.WSum(), W.W2Way(), W.WTrig()]
+    ws = [W.WRec(), W.WSchema(), W.WSum(), W.W2Way(), W.WTrig(), W.WSumSum()]
   # Every second process explores the worlds in reverse order, so that what a pool worker has
   # executed before a given history differs between processes too (address-based hashing and
   # module-level caches are process-history dependent, not hash-seed dependent).
@@ -39,8 +39,8 @@ def _worlds(tier):
   return ws
 
 
-D = {'quick': {'W_rec': 2, 'W_schema': 1, 'W_sum': 1, 'W_2way': 1},
-     'thorough': {'W_rec': 2, 'W_schema': 2, 'W_sum': 2, 'W_2way': 2, 'W_trig': 2}}
+D = {'quick': {'W_rec': 2, 'W_schema': 1, 'W_sum': 1, 'W_2way': 1, 'W_sumsum': 1},
+     'thorough': {'W_rec': 2, 'W_schema': 2, 'W_sum': 2, 'W_2way': 2, 'W_trig': 2, 'W_sumsum': 2}}
 
 
 def seeds(tier):
